@@ -38,8 +38,7 @@ def run(ctx: Ctx) -> None:
     c = consts(ctx.tier)
     ctx.rule = ("configurations = Init states of Grading.tla (topology x corner numbering x chop placement covering "
                 "every family); non-trivial = at least two blocks share an edge; distinct by (vertex ids, chops)")
-    g.model_check(ctx, c, INVS, timeout=1500)
-    cfgs = g.generate(ctx, c)
+    cfgs = g.model_check(ctx, c, INVS, timeout=1500, emit=True).records
     rng = random.Random(ctx.seed)
     n_sched = 2 if ctx.tier == "quick" else 6
     limit = 700 if ctx.tier == "quick" else 20000
